@@ -74,20 +74,16 @@ Proof.
   intros g H [max Hm]. rewrite <- (H max Hm). now apply string_refines_reference.
 Qed.
 
-Definition mref_pre_all (ops : list mop) : bool := forallb mref_pre ops.
-
 (* MultiFileReader: agree => holds, for every case *)
 Theorem transfer_mfr contents ops obs :
-  mref_pre_all ops = true ->
   fst (fst (c18_verdict (CMfr contents ops obs))) = true ->
   snd (fst (c18_verdict (CMfr contents ops obs))) = true.
 Proof.
-  cbn [c18_verdict fst snd]. intros Pre A.
+  cbn [c18_verdict fst snd]. intros A.
   destruct (mref_run (mkRF (concat contents) 0) ops) as [r|] eqn:R.
   - rewrite <- (mfr_reads_concatenation contents ops r R). exact A.
-  - exfalso. clear A. revert Pre R. generalize (mkRF (concat contents) 0).
-    induction ops as [|op ops IH]; intros f Pre R; cbn in *; [discriminate|].
-    apply andb_true_iff in Pre as [P1 P2]. rewrite P1 in R.
+  - exfalso. clear A. revert R. generalize (mkRF (concat contents) 0).
+    induction ops as [|op ops IH]; intros f R; cbn in *; [discriminate|].
     destruct (mref_step f op) as [f' o]. destruct (mref_run f' ops) eqn:E; [discriminate|].
     eapply IH; eassumption.
 Qed.
